@@ -15,7 +15,12 @@ RULE = ("(1) Nodes.typed_value vs the model on every text of length <= L over 16
         "boolean-looking / empty / plain strings; needles include every spelling class and regular expressions, valid "
         "and invalid); (3) seeded random scalars x random terms x 9 operators; (4) inversion through the real "
         "Processor.get_nodes on every list of <= 3 scalars from an 8-value pool and on hashes (key names, attribute) and "
-        "sets x operators x terms x plain/inverted.  Regex answers for the model's oracle are computed by the harness "
+        "sets x operators x terms x plain/inverted; (5) the same through collectors: documents of 3 collections of numbers whose "
+        "text order differs from their numeric order (digit counts, negatives, floats; some with numeric-looking / plain "
+        "strings), every grouping (X), ((X)), (X)+(Y), ((X)+(Y)), (((X)+(Y))+(Z)), ((X)+((Y)+(Z))) ... of their members, both "
+        "notations, followed by [.OP term] plain and inverted: the result must be the collected members the typed rules "
+        "select (model scan over the collected values; for all-numeric candidates and a numeric term also judged "
+        "model-free: exactly the members numerically OP the term), inverted = the complement.  Regex answers for the model's oracle are computed by the harness "
         "with Python re on the model's own text.  A case counts as distinct & non-trivial when the operator answers "
         "True, or answers False on a numeric/boolean typed pair (the typed branches), or an inverted query yields a "
         "non-empty proper subset.")
@@ -358,6 +363,241 @@ def inversion_cases(rng, tier):
     return cases
 
 
+
+# --------------------------------------------------------------------------- searches over collector results
+
+COLL_NUMS = [1, 9, 10, 100, 2, 20, 5, -3, -20, 1000, 0, 99]
+COLL_FLOATS = [1.5, 10.25, 9.75, 100.5, -2.5, 9.5, 20.5, 0.5, -10.25, 1000.125]
+COLL_STRS = ["9", "10", "05", "a", "ab", "10a", "100", "x"]
+COLL_TERMS = ["9", "10", "9.8", "100", "5", "-3", "20", "1", "0", "99.5", "a", "10a", "1e1"]
+# how the operands X, Y, Z are grouped: the reference (one level), and groups inside groups
+COLL_SHAPES = {
+    1: ["(X)", "((X))", "(((X)))"],
+    2: ["(X)+(Y)", "((X)+(Y))", "(((X)+(Y)))", "((X))+((Y))"],
+    3: ["(X)+(Y)+(Z)", "(((X)+(Y))+(Z))", "((X)+((Y)+(Z)))", "((X)+(Y)+(Z))", "((X)+(Y))+(Z)"],
+}
+ORDERING = {"GREATER_THAN": lambda a, b: a > b, "LESS_THAN": lambda a, b: a < b,
+            "GREATER_THAN_OR_EQUAL": lambda a, b: a >= b, "LESS_THAN_OR_EQUAL": lambda a, b: a <= b}
+
+
+def coll_expr(shape, operands, fslash):
+    """`shape` with X, Y, Z replaced by the operand paths: `k.*` / `k` (dot) or `/k/*` / `/k` (forward slash)."""
+    out = shape
+    for name, (key, star) in zip("XYZ", operands):
+        sub = ("/%s/*" if star else "/%s") % key if fslash else ("%s.*" if star else "%s") % key
+        out = out.replace(name, sub)
+    return ("/" + out) if fslash else out
+
+
+def number_of(text):
+    import re as _re
+    if _re.fullmatch(r"-?[0-9]+", text):
+        return int(text)
+    if _re.fullmatch(r"-?[0-9]+\.[0-9]+", text):
+        return float(text)
+    return None
+
+
+def ident(v):
+    """A scalar as [kind, text]: 9 (int), 9.5 (float) and "9" (str) are three different members."""
+    if isinstance(v, bool):
+        return ["bool", str(bool(v))]
+    if isinstance(v, int):
+        return ["int", str(int(v))]
+    if isinstance(v, float):
+        return ["float", repr(float(v))]
+    if isinstance(v, str):
+        return ["str", str(v)]
+    return ["other", repr(v)]
+
+
+def run_coll(docj, keys, path, want_terms):
+    """Results of `path` (a collector, then possibly one search segment) on the real Processor, each identified by the
+    innermost value (values are distinct within these documents): [[kind, text], ...].  want_terms = (method, term, inverted) | None."""
+    from yamlpath import Processor, YAMLPath
+    from yamlpath.enums import PathSegmentTypes
+    from yamlpath.path import SearchTerms
+    from yamlpath.wrappers import NodeCoords
+    doc = build_doc(docj)
+
+    def parse():
+        yp = YAMLPath(path)
+        segs = list(yp.escaped)
+        ok = bool(segs) and segs[0][0] is PathSegmentTypes.COLLECTOR
+        if want_terms is None:
+            return yp, ok and all(sg[0] is PathSegmentTypes.COLLECTOR for sg in segs)
+        t = segs[-1][1]
+        ok = (ok and isinstance(t, SearchTerms) and all(sg[0] is PathSegmentTypes.COLLECTOR for sg in segs[:-1])
+              and t.method.name == want_terms[0] and t.term == want_terms[1] and bool(t.inverted) == want_terms[2]
+              and t.attribute == ".")
+        return yp, ok
+    st, val = cc.guarded(parse)
+    if st != "ok" or not val[1]:
+        return None
+    yp = val[0]
+    res = []
+
+    def flat(nc):
+        # a collector hands over its members wrapped once per enclosing group; a bare list operand (`(k)`) is handed
+        # over as its members.  Every value occurs once in the document, so the value identifies the member.
+        node = nc
+        while isinstance(node, NodeCoords):
+            node = node.node
+        if isinstance(node, list):
+            for x in node:
+                flat(x)
+        else:
+            res.append(ident(node))
+
+    def go():
+        proc = Processor(core.quiet_logger(), doc)
+        for nc in proc.get_nodes(yp, mustexist=True):
+            flat(nc)
+    st, val = cc.guarded(go)
+    if st == "ok":
+        return {"ids": res}
+    if st == "timeout":
+        return {"timeout": 1}
+    if core.exc_class(val) == "ypath" and not res:
+        return {"ids": []}
+    return {"exc": core.exc_class(val), "site": core.crash_site(val), "partial": res}
+
+
+def coll_chunk(cases):
+    """cases: [{"doc", "keys", "operands": [[key, star]], "shape", "fslash", "m", "t"}]: the nine operators, plain and
+    inverted, applied to the result of a (nested) collector must select the members the typed rules select from the
+    collected candidates."""
+    drv = core.Driver()
+    stats = {"n": 0, "oom": 0, "nontrivial": 0, "skipped": 0, "sites": {}}
+    viol, disag, samples = [], [], []
+    prepared = []
+    for c in cases:
+        expr = coll_expr(c["shape"], c["operands"], c["fslash"])
+        plainj = codec.json_to_plain(c["doc"])
+        cand_ids, cands = [], []
+        for key, _star in c["operands"]:
+            coll = plainj[key]
+            refs = list(coll.keys()) if isinstance(coll, dict) else list(range(len(coll)))
+            cand_ids += [ident(coll[r]) for r in refs]
+            cands += [coll[r] for r in refs]
+        stats["n"] += 2
+        nested = "nested" if "((" in c["shape"] else "flat"
+        keys = [k for k, _ in c["operands"]]
+        # what the collector alone gathers is not C12's subject: searches are judged only when it gathers the operands' members
+        base = run_coll(c["doc"], keys, expr, None)
+        if base is None or base.get("ids") != cand_ids:
+            stats["skipped"] += 1
+            continue
+        tt = "/%s/" % c["t"] if c["m"] == "REGEX" else c["t"]
+        outs = []
+        for inv in (False, True):
+            outs.append(run_coll(c["doc"], keys, "%s[.%s%s%s]" % (expr, "!" if inv else "", OPS[c["m"]], tt), (c["m"], c["t"], inv)))
+        if outs[0] is None or outs[1] is None:
+            stats["skipped"] += 1
+            continue
+        prepared.append((c, expr, nested, cand_ids, cands, outs))
+    texts = drv.ask([{"op": "C12.text", "h": hay_to_json(h)} for p_ in prepared for h in p_[4]])
+    reqs, k = [], 0
+    for (c, expr, nested, cand_ids, cands, outs) in prepared:
+        rx = []
+        if c["m"] == "REGEX":
+            for h in cands:
+                rx.append([c["t"], texts[k]["text"], cc.rx_answer(c["t"], texts[k]["text"])])
+                k += 1
+        else:
+            k += len(cands)
+        for inv in (False, True):
+            reqs.append({"op": "C12.scan", "site": "list", "inv": inv, "m": c["m"], "t": c["t"],
+                         "c": [hay_to_json(h) for h in cands], "rx": rx})
+    model = drv.ask(reqs)
+    for i, (c, expr, nested, cand_ids, cands, outs) in enumerate(prepared):
+        case = dict(c, kind="collector", expr=expr)
+        stats["sites"]["collector-" + nested] = stats["sites"].get("collector-" + nested, 0) + 1
+        if any(model[2 * i + j]["err"] == "outOfModel" for j in (0, 1)):
+            stats["oom"] += 1
+            continue
+        bad = False
+        num = number_of(c["t"])
+        numeric = (c["m"] in ORDERING and num is not None
+                   and all(isinstance(v, (int, float)) and not isinstance(v, bool) for v in cands))
+        for j, which in ((0, "plain"), (1, "inverted")):
+            im, mo = outs[j], model[2 * i + j]
+            what = "%s[.%s%s%s] over %s" % (expr, "!" if j else "", OPS[c["m"]], c["t"], json.dumps(codec.json_to_plain(c["doc"])))
+            if "timeout" in im:
+                viol.append(("timeout", what + " did not return", case)); bad = True
+                continue
+            if "exc" in im:
+                if mo["err"] is not None and mo["err"].startswith("crash") and im["exc"].startswith("crash"):
+                    continue
+                viol.append(("%s@%s" % (im["exc"], im["site"]), what + " raised %s" % im["exc"], case)); bad = True
+                continue
+            if numeric:
+                # ordering is numeric for numeric values: exactly the collected members numerically OP the term
+                want = [cid for cid, v in zip(cand_ids, cands) if ORDERING[c["m"]](v, num) != bool(j)]
+                if im["ids"] != want:
+                    viol.append(("collector-ordering-not-numeric:%s:%s" % (nested, which),
+                                 what + " yielded %s; the collected members numerically %s%s %s are %s"
+                                 % (im["ids"], "not " if j else "", OPS[c["m"]], c["t"], want), case))
+                    bad = True
+                    continue
+            if mo["err"] is not None:
+                continue
+            want = [cand_ids[h] for h in mo["hits"]]
+            if im["ids"] != want:
+                viol.append(("collector-scan-mismatch:%s:%s" % (nested, which),
+                             what + " yielded %s; the typed rules select %s of the collected %s" % (im["ids"], want, cands), case))
+                bad = True
+        if bad:
+            continue
+        if "ids" in outs[0] and "ids" in outs[1]:
+            compl = [cid for cid in cand_ids if cid not in outs[0]["ids"]]
+            if outs[1]["ids"] != compl:
+                viol.append(("inverted-not-complement:collector-" + nested,
+                             "inverted %s %r behind %s yielded %s, plain yielded %s of %s"
+                             % (c["m"], c["t"], expr, outs[1]["ids"], outs[0]["ids"], cand_ids), case))
+                continue
+            if outs[0]["ids"] and outs[1]["ids"]:
+                stats["nontrivial"] += 1
+                if len(samples) < 1 and nested == "nested":
+                    samples.append({"case": case, "plain": outs[0]["ids"], "inverted": outs[1]["ids"]})
+    return stats, viol[:40], disag[:40], samples
+
+
+def collector_cases(rng, tier):
+    """Documents {a: [...], b: [...], c: [...] | {...}} of numbers whose text order differs from their numeric order
+    (different digit counts, negatives, floats), some with numeric-looking / plain strings mixed in; every grouping
+    of COLL_SHAPES over 1-3 of the collections (members `k.*`, or the list itself `k`), both notations, x the nine
+    operators x terms."""
+    cases = []
+    ndocs = 100 if tier == "quick" else 1000
+    for d in range(ndocs):
+        kind = ["ints", "ints", "floats", "nums", "mixed"][d % 5]
+        pool = {"ints": COLL_NUMS, "floats": COLL_FLOATS, "nums": COLL_NUMS + COLL_FLOATS,
+                "mixed": COLL_NUMS + COLL_FLOATS + COLL_STRS}[kind]
+        colls = {}
+        sizes = [rng.randint(1, 4) for _ in range(3)]
+        while sum(sizes) > len(pool):
+            sizes[sizes.index(max(sizes))] -= 1
+        distinct = rng.sample(pool, sum(sizes))       # each value once per document: a value identifies its member
+        for key in ("a", "b", "c"):
+            vals = [distinct.pop() for _ in range(sizes.pop())]
+            if key == "c" and rng.random() < 0.5:
+                colls[key] = {"k": "map", "e": [["k%d" % i, hay_to_json(v)] for i, v in enumerate(vals)]}
+            else:
+                colls[key] = {"k": "seq", "i": [hay_to_json(v) for v in vals]}
+        doc = {"k": "map", "e": [[k, colls[k]] for k in ("a", "b", "c")]}
+        for n in (1, 2, 3):
+            for shape in COLL_SHAPES[n]:
+                keys = rng.sample(["a", "b", "c"], n)
+                operands = [[k, True if colls[k]["k"] == "map" else rng.random() < 0.7] for k in keys]
+                fslash = rng.random() < 0.3
+                picks = [(m, rng.choice(COLL_TERMS)) for m in ORDERING] + \
+                        [(m, rng.choice(COLL_TERMS)) for m in rng.sample([x for x in cc.METHODS if x not in ORDERING], 2)]
+                for m, t in picks:
+                    cases.append({"doc": doc, "keys": ["a", "b", "c"], "operands": operands, "shape": shape,
+                                  "fslash": fslash, "m": m, "t": t})
+    return cases
+
 # --------------------------------------------------------------------------- run
 
 def check_tables(chk):
@@ -391,6 +631,8 @@ def run(chk: core.Check):
         c = rp.get("case", rp)
         if c.get("kind") == "inversion":
             res = [inv_chunk([c])]
+        elif c.get("kind") == "collector":
+            res = [coll_chunk([c])]
         elif c.get("kind") == "typed" or "text" in c:
             res = [cc.compare_typed_chunk([c["text"]]) + ([],)]
         else:
@@ -437,6 +679,11 @@ def run(chk: core.Check):
     inv = inversion_cases(rng, tier)
     for st, viol, disag, samples in core.pmap(inv_chunk, core.chunked(inv, 64)):
         _absorb(chk, "inversion", st, viol, disag, samples)
+    # (5) the operators behind (nested) collectors
+    colls = collector_cases(random.Random(chk.seed * 13 + 5), tier)
+    chk.extra_cov["collector_cases"] = len(colls)
+    for st, viol, disag, samples in core.pmap(coll_chunk, core.chunked(colls, 64)):
+        _absorb(chk, "collector", st, viol, disag, samples)
     chk.exhaustive = True
     chk.extra_cov["exhaustive_bound"] = (
         "typed_value: all texts of length <= %d over %d characters; search_matches: the complete %d x %d x 9 grid; "
